@@ -130,7 +130,7 @@ func (f *Font) makePrivateDict(idx int, defaultWidth, nominalWidth float64) cffD
 
 	privateDict.setDeltaF16(opBlueValues, private.BlueValues)
 	privateDict.setDeltaF16(opOtherBlues, private.OtherBlues)
-	if math.Abs(private.BlueScale-defaultBlueScale) > 1e-6 {
+	if private.BlueScale != defaultBlueScale {
 		privateDict[opBlueScale] = []interface{}{private.BlueScale}
 	}
 	if private.BlueShift != defaultBlueShift {
